@@ -12,4 +12,5 @@ cargo build --offline --release -p vgen
 "$CARGO_TARGET_DIR/release/vgen" --thorough --out universe
 cargo build --offline --release -p vcheck
 cargo build --offline --profile plain -p vcheck
+( cd ../sched && CARGO_TARGET_DIR=$PWD/../.target-sched cargo build --offline --release )
 echo "setup done"
